@@ -215,6 +215,7 @@ def explore(ctx):
     nsub = 5 if ctx.quick() else 8
     imports = ['From CV Require Import Cursor.BinaryState Cursor.BinaryCorr Passes.ClangCorr.']
     mono, seq = [], []
+    requested = set()
 
     def record(n, mode, param, steps, final):
         out = [len(final)] + final
@@ -229,6 +230,10 @@ def explore(ctx):
         for r in range(0, n + 1):
             for req in itertools.combinations(range(n), r):
                 steps, final, reason, log, _ = run_bin(ctx, n, 'mono', req)
+                for r_ in log:
+                    if not r_['query']:
+                        a_ = dict(x[2:].partition('=')[::2] for x in r_['argv'] if x.startswith('--'))
+                        requested.add((a_.get('counter'), a_.get('to-counter')))
                 ctx.evaluations += 1
                 ctx.count(f'mono:n={n}')
                 ctx.nontriv(('mono', n, req))
@@ -299,6 +304,22 @@ def explore(ctx):
         if why:
             ctx.violation('best-standard', why, {'kind': 'std', 'caps': caps, 'faults': faults})
         best_cases.append(('[' + '; '.join(f'({i}, ({c})%Z)' for i, c in enumerate(counts)) + ']', [1, chosen, counts[chosen]] if chosen >= 0 else [-1, -1]))
+    # every (counter, to-counter) pair the real pass asked for above is handed to clang_delta's own argument handling
+    # (ClangDelta.cpp and TransformationManager::verify compiled verbatim, see C19): the tool must let each of them through
+    from props import c19 as _c19
+    exe_, info_ = _c19.build_argparser(ctx)
+    if exe_ is None:
+        ctx.broke('translator', 'clang_delta/ClangDelta.cpp against the stand-in manager', f'cannot build the command-line parser: {info_}')
+    else:
+        import subprocess
+        for c_, t_ in sorted(requested, key=lambda p_: (int(p_[0]), int(p_[1])))[:80]:
+            r_ = subprocess.run([exe_, '--transformation=remove-unused-function', f'--counter={c_}', f'--to-counter={t_}', '--warn-on-counter-out-of-bounds', '--report-instances-count', 'f.c'],
+                                capture_output=True, text=True, timeout=20)
+            ctx.evaluations += 1
+            ctx.count('requested-range-accepted-by-the-tool')
+            if 'PARSED' not in r_.stdout:
+                ctx.violation('requested-range-refused', f'the pass asks for --counter={c_} --to-counter={t_}; clang_delta refuses that pair (exit {r_.returncode}: {r_.stdout.strip()[-120:]})',
+                              {'kind': 'argvpair', 'counter': c_, 'to': t_})
     query_cases = []
     for nq in (0, 1, 3, 8):
         setup(ctx, {'caps': {'c++14': nq}})
@@ -401,6 +422,9 @@ def replay(ctx, payload):
         print('replay:', why)
         if why:
             ctx.violation('clang-driving-dependent-instances', why, r)
+        return
+    if r['kind'] == 'argvpair':
+        explore(ctx)
         return
     if r['kind'] == 'preserve':
         explore(ctx)
